@@ -9,5 +9,7 @@ CONSTANTS
   Loss = FALSE
   Dup = FALSE
   Maxes = {1}
+  Export = FALSE
+  Depth = 0
 INVARIANTS OnlySent AtMostOnce FragAtMostOnce AttributionInOrder Complete
 CHECK_DEADLOCK FALSE
